@@ -150,7 +150,11 @@ impl TreeBuilderSimulator {
         if self.current_ns == Namespace::Html {
             self.check_integration_point_exit(tag_name)
         } else if self.should_leave_ns(tag_name) {
-            self.leave_ns()
+            if tag_is_one_of!(tag_name, [P, Br]) {
+                self.leave_foreign_content()
+            } else {
+                self.leave_ns()
+            }
         } else {
             TreeBuilderFeedback::None
         }
@@ -200,6 +204,17 @@ impl TreeBuilderSimulator {
         TreeBuilderFeedback::SetAllowCdata(self.current_ns != Namespace::Html)
     }
 
+    /// Breakout from foreign content (13.2.6.5): elements are popped until the current node is
+    /// an integration point or an HTML element, so all directly nested foreign roots
+    /// (e.g. `<math><math>`) are left at once.
+    fn leave_foreign_content(&mut self) -> TreeBuilderFeedback {
+        while self.ns_stack.len() > 2 && self.ns_stack[self.ns_stack.len() - 2] != Namespace::Html {
+            self.ns_stack.pop();
+        }
+
+        self.leave_ns()
+    }
+
     fn is_integration_point_enter(&self, tag_name: LocalNameHash) -> bool {
         self.current_ns == Namespace::Svg && is_html_integration_point_in_svg(tag_name)
             || self.current_ns == Namespace::MathML
@@ -240,7 +255,7 @@ impl TreeBuilderSimulator {
         tag_name: LocalNameHash,
     ) -> TreeBuilderFeedback {
         if causes_foreign_content_exit(tag_name) {
-            return self.leave_ns();
+            return self.leave_foreign_content();
         }
 
         if self.is_integration_point_enter(tag_name) {
@@ -267,7 +282,7 @@ impl TreeBuilderSimulator {
                             || eq_case_insensitive(&name, b"size")
                             || eq_case_insensitive(&name, b"face")
                         {
-                            return this.leave_ns();
+                            return this.leave_foreign_content();
                         }
                     }
                 });
